@@ -122,6 +122,19 @@ static void suite_roundtrip(Rng &rng) {
 static void suite_ivs(Rng &rng) {
   const char *suite = "ivs";
   size_t chunk = 16 * (size_t)BSZ;
+  // within ONE stream no keystream block may be used twice: streams of 300 and 600 blocks in the two stream modes
+  for (int c : {2, 4}) for (int T : {1, 2}) {
+    bytes key = rng.key16(), seed = rng.nzbuf(11), plain = rng.buf(16 * 300 * (size_t)T + 5);
+    EncRes e = real_enc(T, c, 1, key, seed, plain);
+    size_t body = 48 + 20 * (size_t)T, nb = (e.file.size() - body) / 16;
+    std::map<std::string, size_t> seen; bool dup = false;
+    for (size_t b = 0; b + 1 < nb && !dup; b++) {
+      if ((b / BSZ) % T != 0) continue;                       // blocks of stream 0 only
+      std::string ks(16, 0); for (int i = 0; i < 16; i++) ks[i] = (char)(e.file[body + 16 * b + i] ^ plain[16 * b + i]);
+      if (seen.count(ks)) { dup = true; emitA(suite, "C18", "keystream block reused within one stream (blocks " + S((long)seen[ks]) + " and " + S((long)b) + ") c=" + S(c) + " T=" + S(T) + " key=" + hex(key) + " seed=" + hex(seed)); }
+      seen[ks] = b;
+    }
+  }
   for (int c = 1; c <= 4; c++) for (int T : {2, 3, 4}) {
     bytes key = rng.buf(16), seed = rng.nzbuf(20);
     bytes one = rng.buf(chunk), plain;
@@ -195,6 +208,14 @@ static void suite_tamper(Rng &rng) {
       bytes m = F; m.insert(m.begin() + at, (unsigned char)rng.next()); tamper_check(suite, tc, T, key, F, plain, m, "insert at " + S((long)at), true);
       if (at < F.size()) { bytes d = F; d.erase(d.begin() + at); tamper_check(suite, tc, T, key, F, plain, d, "delete at " + S((long)at), true); }
     }
+    // two changes in the tag that cancel under xor/sum accumulation, together with a changed ciphertext byte: must be rejected;
+    // and the tag replaced by zeros / truncated at its first zero byte together with a changed body byte
+    { int hl = hlen_of(h); size_t body0 = 48 + 20 * (size_t)T;
+      for (int rep = 0; rep < 40; rep++) { bytes m = F; int i = rng.below(hl), j = rng.below(hl); if (i == j) j = (i + 1) % hl; m[10 + i] ^= 0x80; m[10 + j] ^= 0x80;
+        if (rep % 2) m[body0 + rng.below((uint32_t)(F.size() - body0))] ^= 0x01;
+        tamper_check(suite, tc, T, key, F, plain, m, "two cancelling tag flips", rep == 0); }
+      for (int rep = 0; rep < 300; rep++) { bytes m = F; for (int i = 0; i < hl; i++) m[10 + i] = 0; m[body0 + rng.below((uint32_t)(F.size() - body0))] ^= (unsigned char)(1 + rng.below(255)); if (rep % 3 == 0) m[48 + rng.below(20)] ^= 0x10;
+        tamper_check(suite, tc, T, key, F, plain, m, "zeroed tag with a changed body", rep == 0); } }
     // changes confined to the zero-filled gap carry no information: still the original plaintext
     { int hl = hlen_of(h); if (10 + hl < 48) { bytes m = F; for (int i = 10 + hl; i < 48; i++) m[i] = (unsigned char)rng.next(); DecRes d = real_dec(T, key, m); if (!(d.ok && d.out == plain)) { /* rejecting is also fine for the property; accepting with other bytes is not */ if (d.ok) emitA(suite, "C05", "gap-only modification changes the plaintext key=" + hex(key) + " file=" + hex(m)); } } }
   }
@@ -221,7 +242,8 @@ static void suite_wrongkey(Rng &rng) {
       if (ml) { emitM(suite, "ver " + cfgs(T) + " " + hex(k2) + " " + hex(e.file), okclass(v.ok)); emitM(suite, "dec " + cfgs(T) + " " + hex(k2) + " " + hex(e.file), std::string(d.ok ? "0 " : "!0 ") + hex(d.out) + " *"); }
     };
     for (int bit = 0; bit < 128; bit++) { bytes k2 = key; k2[bit / 8] ^= (unsigned char)(1 << (bit % 8)); one(k2, bit % 32 == 0); }
-    for (int i = 0; i < (tier_thorough() ? 100 : 30); i++) one(rng.buf(16), i % 10 == 0);
+    for (int i = 0; i < (tier_thorough() ? 2000 : 400); i++) one(rng.buf(16), i % 40 == 0);
+    for (int b1 = 0; b1 < 128; b1 += 3) for (int b2 = b1 + 1; b2 < 128; b2 += 7) { bytes k2 = key; k2[b1 / 8] ^= (unsigned char)(1 << (b1 % 8)); k2[b2 / 8] ^= (unsigned char)(1 << (b2 % 8)); one(k2, false); }
     { bytes z(16, 0); if (z != key) one(z, true); }
   }
   emitI(suite, "wrong_keys", S(tried));
@@ -265,7 +287,46 @@ static void suite_malformed(Rng &rng) {
     // a valid file read with a different worker count than it was written with
     for (int T2 : {1, 2, 5}) if (T2 != T) malformed_case(suite, T2, key, F, "decrypted with T=" + S(T2) + " but written with T=" + S(T), 0);
   }
+  // verify and decrypt must agree on a file whatever was verified or decrypted just before in the same process
+  // (a result remembered from a related file must not be reused): op1 on the authentic file, then op2 on a same-size variant
+  { long pairs = 0;
+    for (int fi = 0; fi < (tier_thorough() ? 8 : 3); fi++) {
+      int T = 1 + fi % 3, c = (fi + 1) % 5, h = fi % 3;
+      bytes seed = rng.nzbuf(10), plain = rng.padlike(20 + rng.below(100));
+      EncRes e = real_enc(T, c, h, key, seed, plain);
+      const bytes &F = e.file; size_t body = 48 + 20 * (size_t)T;
+      std::vector<bytes> vars;
+      for (int k = 0; k < 12; k++) { bytes m = F; m[body + rng.below((uint32_t)(F.size() - body))] ^= (unsigned char)(1 << rng.below(8)); vars.push_back(m); }
+      if (body > 74) for (int k = 0; k < 4; k++) { bytes m = F; m[74 + rng.below((uint32_t)(body - 74))] ^= 0x20; vars.push_back(m); }
+      { bytes m = F; m[48] ^= 1; vars.push_back(m); m = F; m[10] ^= 1; vars.push_back(m); m = F; m.back() ^= 0x80; vars.push_back(m); }
+      for (auto &m : vars) for (int first = 0; first < 2; first++) {
+        pairs++; g_mal++;
+        DecRes a = first == 0 ? real_ver(T, key, F) : real_dec(T, key, F);
+        if (!a.ok) emitA(suite, "C12", "authentic file rejected T=" + S(T) + " key=" + hex(key) + " file=" + hex(F));
+        DecRes d = real_dec(T, key, m);
+        DecRes a2 = first == 0 ? real_ver(T, key, F) : real_dec(T, key, F); (void)a2;
+        DecRes v = real_ver(T, key, m);
+        if (v.ok != d.ok) emitA(suite, "C12", std::string("after a successful ") + (first == 0 ? "verification" : "decryption") + " of the authentic file, decrypt " + (d.ok ? "accepts" : "rejects") + " but verify " + (v.ok ? "accepts" : "rejects") + " a same-size variant T=" + S(T) + " key=" + hex(key) + " authentic=" + hex(F) + " variant=" + hex(m));
+        if (d.ok && d.out != plain) emitA(suite, "C05", "after an operation on the authentic file a modified variant decrypts to different plaintext T=" + S(T) + " key=" + hex(key) + " variant=" + hex(m));
+        if (!d.ok && !d.out.empty()) emitA(suite, "C11", "failed decryption wrote bytes (variant after authentic) key=" + hex(key) + " variant=" + hex(m));
+      }
+    }
+    emitI(suite, "operation_pairs", S(pairs)); }
   for (int i = 0; i < (tier_thorough() ? 3000 : 200); i++) { bytes g = rng.buf(rng.below(260)); if (rng.below(2) && g.size() >= 8) memcpy(g.data(), MAGIC, 8); if (g.size() > 9 && rng.below(2)) { g[8] = rng.below(6); g[9] = rng.below(4); } malformed_case(suite, 1 + rng.below(5), key, g, "structured garbage", 0); }
+  // "success only if the file is authentic": files that are NOT authentic by construction — a valid header, an all-zero (or constant)
+  // tag field, random IVs and body. A comparison that looks at fewer than all tag bytes accepts about one in 256 of them.
+  { long forged = tier_thorough() ? 20000 : 4000, accepted = 0;
+    for (long i = 0; i < forged; i++) {
+      int T = 1 + (int)(i % 3), h = (int)(i % 3), c = (int)(i % 5);
+      bytes f(48 + 20 * T + 16 * (1 + rng.below(3)), 0); memcpy(f.data(), MAGIC, 8); f[8] = (unsigned char)c; f[9] = (unsigned char)h;
+      unsigned char fill = (i % 4 == 3) ? 0xFF : 0x00; for (int j = 10; j < 10 + hlen_of(h); j++) f[j] = fill;
+      for (size_t j = 48; j < f.size(); j++) f[j] = (unsigned char)rng.next();
+      g_mal++;
+      DecRes v = real_ver(T, key, f);
+      if (v.ok) { accepted++; DecRes d = real_dec(T, key, f);
+        emitA(suite, "C11", "a file that is not authentic (constant tag field, random body) is accepted" + std::string(d.ok ? " and decrypted" : "") + " T=" + S(T) + " key=" + hex(key) + " file=" + hex(f)); if (accepted >= 3) break; }
+    }
+    emitI(suite, "forgery_attempts", S(forged)); }
   emitI(suite, "inputs", S(g_mal));
 }
 
@@ -295,7 +356,9 @@ static void suite_crash(Rng &rng) {
     encs++;
     bytes final = ck.data;
     std::string args = cfgs(T) + " " + S(c) + " " + S(h) + " " + hex(key) + " " + hex(seed) + " " + hex(plain);
-    if (unbuffered) { std::string tr; for (auto &w : ck.log) tr += (tr.empty() ? "" : ",") + S((long)w.first) + ":" + S((long)w.second.size()); emitM(suite, "enclog " + args, tr.empty() ? "-" : tr); }
+    { // the order of writes, adjacent sequential writes merged (so that neither stdio's nor the code's chunking matters)
+      std::vector<std::pair<size_t, size_t>> cl; for (auto &w : ck.log) { if (!cl.empty() && cl.back().first + cl.back().second == w.first) cl.back().second += w.second.size(); else cl.push_back({w.first, w.second.size()}); }
+      std::string tr; for (auto &w : cl) tr += (tr.empty() ? "" : ",") + S((long)w.first) + ":" + S((long)w.second); emitM(suite, "enclog " + args, tr.empty() ? "-" : tr); }
     emitM(suite, "enc " + args, hex(final));
     // shape the property rests on: sequential appends, then exactly the tag field is patched, last
     { size_t end = 0; bool shape = true; size_t nw = ck.log.size(); int hl = hlen_of(h);
